@@ -149,8 +149,12 @@ impl<'a, TokenUsages: Fn(StatementIdx, CostTokenType) -> usize>
             };
             if let Some(ap_change) = self.branch_ap_change(idx, ap_change, |id| {
                 self.infos[self.func_entry_point(id).ok()?.0].known_ap_change_to_return
-            }) {
-                max_change = max_change.max(target_ap_change + ap_change);
+            })? {
+                max_change = max_change.max(
+                    target_ap_change
+                        .checked_add(ap_change)
+                        .ok_or(ApChangeError::ApChangeOverflow(idx))?,
+                );
             } else {
                 return Ok(());
             };
@@ -209,7 +213,7 @@ impl<'a, TokenUsages: Fn(StatementIdx, CostTokenType) -> usize>
     }
 
     /// Calculates the tracking information for a statement.
-    fn calc_tracking_info_for_statement(&mut self, idx: StatementIdx) {
+    fn calc_tracking_info_for_statement(&mut self, idx: StatementIdx) -> Result<(), ApChangeError> {
         for (ap_change, target) in &self.branches[idx.0] {
             if matches!(ap_change, ApChange::EnableApTracking) {
                 self.infos[target.0].tracking_info = Some(ApTrackingInfo {
@@ -221,10 +225,13 @@ impl<'a, TokenUsages: Fn(StatementIdx, CostTokenType) -> usize>
             let Some(mut base_info) = self.infos[idx.0].tracking_info.clone() else {
                 continue;
             };
-            if let Some(ap_change) =
-                self.branch_ap_change(idx, ap_change, |id| self.function_ap_change.get(id).cloned())
+            if let Some(ap_change) = self
+                .branch_ap_change(idx, ap_change, |id| self.function_ap_change.get(id).cloned())?
             {
-                base_info.ap_change += ap_change;
+                base_info.ap_change = base_info
+                    .ap_change
+                    .checked_add(ap_change)
+                    .ok_or(ApChangeError::ApChangeOverflow(idx))?;
             } else {
                 continue;
             }
@@ -237,6 +244,7 @@ impl<'a, TokenUsages: Fn(StatementIdx, CostTokenType) -> usize>
                 None => base_info,
             });
         }
+        Ok(())
     }
 
     /// Calculates the effective ap change for a statement, and the variables for ap alignment.
@@ -262,7 +270,7 @@ impl<'a, TokenUsages: Fn(StatementIdx, CostTokenType) -> usize>
                 continue;
             }
             let Some(change) = self
-                .branch_ap_change(idx, ap_change, |id| self.function_ap_change.get(id).cloned())
+                .branch_ap_change(idx, ap_change, |id| self.function_ap_change.get(id).cloned())?
             else {
                 source_ap_change = Some(base_info.ap_change);
                 continue;
@@ -299,16 +307,19 @@ impl<'a, TokenUsages: Fn(StatementIdx, CostTokenType) -> usize>
         idx: StatementIdx,
         ap_change: &ApChange,
         func_ap_change: impl Fn(&FunctionId) -> Option<usize>,
-    ) -> Option<usize> {
-        match ap_change {
+    ) -> Result<Option<usize>, ApChangeError> {
+        Ok(match ap_change {
             ApChange::Unknown | ApChange::DisableApTracking => None,
             ApChange::Known(x) => Some(*x),
             ApChange::FromMetadata
             | ApChange::AtLocalsFinalization(_)
             | ApChange::EnableApTracking => Some(0),
             ApChange::FinalizeLocals => Some(self.infos[idx.0].locals_size),
-            ApChange::FunctionCall(id) => func_ap_change(id).map(|x| 2 + x),
-        }
+            ApChange::FunctionCall(id) => match func_ap_change(id) {
+                Some(x) => Some(x.checked_add(2).ok_or(ApChangeError::ApChangeOverflow(idx))?),
+                None => None,
+            },
+        })
     }
 
     /// Calculates the branches for all statements.
@@ -358,7 +369,7 @@ pub fn calc_ap_changes<TokenUsages: Fn(StatementIdx, CostTokenType) -> usize>(
         });
     }
     for idx in ap_tracked_reverse_topological_ordering.iter().rev() {
-        helper.calc_tracking_info_for_statement(*idx);
+        helper.calc_tracking_info_for_statement(*idx)?;
     }
     for idx in ap_tracked_reverse_topological_ordering {
         helper.calc_effective_ap_change_and_variables_per_statement(idx)?;
